@@ -107,7 +107,7 @@ def gen_cases(run):
     rng = run.rng
     flags = _flags(run)
     # (1) every stochastic recipe on each of its input kinds
-    reps = run.n(4, 16 * 24)
+    reps = run.n(4, 16 * 16)
     names = [n for n, r in H.RECIPES.items() if r.kd and (r.stochastic or r.pipeline)
              and (not r.may_be_unconstructible or n in flags["constructible"])]
     for rep in range(reps):
@@ -125,7 +125,7 @@ def gen_cases(run):
                     spec["_trivial"] = True
                 yield spec
     # (2) random compositions
-    for i in range(run.n(700, 160000)):
+    for i in range(run.n(700, 80000)):
         T = H.random_input_type(rng)
         depth = rng.choice([1, 2, 2, 3, 3])
         tree, _ = H.gen_composition(rng, T, depth, flags)
